@@ -6,14 +6,17 @@
     not been evaluated on, [Function.oracle] (PEPit/function.py) allocates a fresh leaf Point for the
     gradient and a fresh leaf Expression for the value and records the triple.  This file models
     exactly that bookkeeping (the reuse of earlier evaluations is property C07's model). *)
-From Coq Require Import List QArith Arith Bool.
+From Coq Require Import List QArith ZArith Arith Bool.
 From PV Require Import Model.Dict Model.Terms.
 Import ListNotations.
 
 Inductive mop : Type :=
 | MFresh                        (* x = Point() : a free leaf point *)
 | MEval (f : nat) (p : pdict)   (* g, fx = f.oracle(p) : fresh gradient leaf, fresh value leaf *)
-| MStat (f : nat).              (* xs = f.stationary_point() : fresh leaf point, EMPTY gradient, fresh value leaf *)
+| MStat (f : nat)               (* xs = f.stationary_point() : fresh leaf point, EMPTY gradient, fresh value leaf *)
+| MProx (f : nat) (p : pdict) (gamma : Q).
+                                (* x, gx, fx = proximal_step(p, f, gamma) (PEPit/primitive_steps/proximal_step.py):
+                                   gx = Point(); fx = Expression(); x = p - gamma * gx; f.add_point((x, gx, fx)) *)
 
 Definition msample : Type := (pdict * pdict * edict)%type.
 
@@ -34,6 +37,12 @@ Definition mstep (s : mstate) (o : mop) : mstate :=
   | MStat f =>
       mkM (S (m_np s)) (S (m_ne s))
           (m_samples s ++ [(f, ([(m_np s, 1%Q)], [], [(KF (m_ne s), 1%Q)]))])
+  | MProx f p gamma =>
+      (* [gamma * gx] is Point.__rmul__ (no pruning), [p - ...] is Point.__sub__ (merge, then prune);
+         add_point prunes the three dictionaries in place, which changes nothing: the point is already pruned,
+         the two others are fresh leaves *)
+      mkM (S (m_np s)) (S (m_ne s))
+          (m_samples s ++ [(f, (prune (p_sub p (p_scal gamma [(m_np s, 1%Q)])), [(m_np s, 1%Q)], [(KF (m_ne s), 1%Q)]))])
   end.
 
 Definition mrun (ops : list mop) (s : mstate) : mstate := fold_left mstep ops s.
@@ -41,9 +50,20 @@ Definition mrun (ops : list mop) (s : mstate) : mstate := fold_left mstep ops s.
 (** every evaluated point only mentions leaves that exist when it is evaluated *)
 Definition keys_below (n : nat) (p : pdict) : bool := forallb (fun '(k, _) => Nat.ltb k n) p.
 
+(** a positive rational step size; the evaluated dictionary has unique keys (as every Python dict) *)
+Definition qpos (q : Q) : bool := Z.ltb 0 (Qnum q).
+Fixpoint nodupb (l : list nat) : bool :=
+  match l with [] => true | k :: l' => negb (existsb (Nat.eqb k) l') && nodupb l' end.
+
+Definition op_wf (s : mstate) (o : mop) : bool :=
+  match o with
+  | MEval _ p => keys_below (m_np s) p
+  | MProx _ p gamma => keys_below (m_np s) p && nodupb (keys p) && qpos gamma
+  | _ => true
+  end.
+
 Fixpoint mwf (ops : list mop) (s : mstate) : bool :=
   match ops with
   | [] => true
-  | o :: ops' =>
-      (match o with MEval _ p => keys_below (m_np s) p | _ => true end) && mwf ops' (mstep s o)
+  | o :: ops' => op_wf s o && mwf ops' (mstep s o)
   end.
